@@ -22,6 +22,14 @@ steps, none of which installs data).
 namespace RoutinatorModel
 open Notify
 
+/-- The wait decision compares *versions*: the handler decides to wait iff the presented
+(session, serial) is the served one — never because the change set from the presented serial
+happens to be empty (a net-zero sequence of changes A → B → A leaves the data equal and the
+version different; such a request must be answered at once). -/
+theorem C17_wait_decision_compares_versions (p : Params) (s : State) :
+    needWait p s = true ↔ p.presented = some (p.session, s.serial) :=
+  needWait_iff p s
+
 /-- **Main invariant, literal form.** In every reachable state of the repaired system: if the
 handler waits and the served version was not the presented one *at some moment since the request
 arrived* (`differed`, ghost), a notification is pending for it (`sends > subAt`) or owed by the
